@@ -203,6 +203,46 @@ func RunCheck(r *vk.Run, cfgs []*Config, o CheckOpts) {
 		fmt.Println("  " + l)
 	}
 	fmt.Printf("determinism: %d in-process replays of first/last schedules reproduced the workers' observations\n", detChecked)
+	// anomalies that are not violations: counted, one informational line each kind
+	type noteAgg struct {
+		schedules int64
+		configs   int
+		example   string
+	}
+	notes := map[string]*noteAgg{}
+	for _, c := range cfgs {
+		s := last[c.Name]
+		if s == nil {
+			continue
+		}
+		for k, f := range s.Notes {
+			kind := k
+			if i := strings.Index(k, ":"); i > 0 {
+				kind = k[:i]
+			}
+			a := notes[kind]
+			if a == nil {
+				a = &noteAgg{}
+				notes[kind] = a
+			}
+			a.schedules += f.Count
+			a.configs++
+			if a.example == "" || len(f.Choices) < 12 {
+				a.example = fmt.Sprintf("%s: %s (schedule of %d decisions, bound %d)", c.Name, f.Msg, len(f.Choices), f.Bound)
+			}
+		}
+	}
+	noteCov := map[string]any{}
+	var noteKinds []string
+	for k := range notes {
+		noteKinds = append(noteKinds, k)
+	}
+	sort.Strings(noteKinds)
+	for _, k := range noteKinds {
+		a := notes[k]
+		fmt.Printf("note (informational, not a violation of %s): %s in %d schedules of %d configs at the last bound, e.g. %s\n", r.ID, k, a.schedules, a.configs, a.example)
+		noteCov[k] = map[string]any{"schedules": a.schedules, "configs": a.configs, "example": a.example}
+	}
 	cov := map[string]any{
 		"states":                        states,
 		"transitions":                   int(totalPoints),
@@ -218,6 +258,9 @@ func RunCheck(r *vk.Run, cfgs []*Config, o CheckOpts) {
 		"unit_resume_executions":        int(totalReplays),
 		"determinism_replays":           detChecked,
 		"rule":                          o.What + "; states = distinct observation logs at the last bound summed over configs; transitions = scheduling points executed; every schedule is a complete execution of the real code",
+	}
+	if len(noteCov) > 0 {
+		cov["anomalies_not_violations"] = noteCov
 	}
 	for k, v := range o.Extra {
 		cov[k] = v
